@@ -105,6 +105,10 @@ def check_c11(c, af, a, mf):
     if wf:
         if oc == "error" and af.get("kind") in LAYOUT_KINDS:
             return {"why": "a well-formed layout is rejected for a layout reason: " + af.get("kind", ""), "finding": None}
+        if oc == "error" and af.get("stage") == "front":
+            # these definitions have nothing but a layout to object to (one object, fixed valid names, no enums, no refs):
+            # a front end refusing to read a well-formed field list rejects it for its layout all the same
+            return {"why": "a well-formed layout is rejected by the front end: " + str(af.get("kind")) + " " + str(af.get("message", ""))[:160], "finding": None}
         return None
     # ill-formed: must be rejected, as a compile error naming the object
     if oc == "ok":
@@ -414,6 +418,10 @@ def check_c08(c, af, a, mf):
     if oc == "error":
         if af.get("kind") in RESET_KINDS:
             return {"why": "a valid reset value is rejected: " + af["kind"], "finding": None}
+        if af.get("stage") == "front":
+            # every value in this profile is written in a syntax that can spell it (tools/profiles.py syntax_for_uint),
+            # and the devices have nothing else for a front end to refuse
+            return {"why": "a valid reset value is refused by the front end: " + str(af.get("kind")) + " " + str(af.get("message", ""))[:160], "finding": None}
         return None
     fss = {fs["name"]: fs for fs in af.get("field_sets", [])}
     for name, (okv, exp) in verdicts.items():
